@@ -3638,8 +3638,13 @@ class locked_index:
     def __enter__(self) -> Index:
         """Enter context manager and lock index."""
         f = GitFile(self._path, "wb")
+        try:
+            self._index = Index(self._path)
+        except BaseException:
+            # Don't keep the lock if the index cannot be read
+            f.abort()
+            raise
         self._file = f
-        self._index = Index(self._path)
         return self._index
 
     def __exit__(
@@ -3655,7 +3660,9 @@ class locked_index:
         try:
             f = SHA1Writer(self._file)
             write_index_dict(f, self._index._byname)
-        except BaseException:
-            self._file.abort()
-        else:
             f.close()
+        except BaseException:
+            # Release the lock, and tell the caller that the index was not
+            # written instead of returning as if it had been.
+            self._file.abort()
+            raise
